@@ -271,4 +271,23 @@ theorem C07_evict_top_only (cap icap : Nat) (hcap : 1 ≤ cap) (st : State) (inv
         simp [hl]
       · rw [e] at hk; cases hk
 
+/-! Non-vacuity: concrete histories with capacity 2 that reach the eviction, the stateless
+    service and the in-order cases (evaluated by `decide` on the model). -/
+def z64 : T64 := ⟨0, 0⟩
+def exReq : Req := ⟨z64, z64, ⟨7, 7⟩⟩
+/-- two clients at capacity 2 -/
+def exFull : State := run 2 2 init [.hr 1 exReq 1000000000 1000000100, .hr 2 exReq 2000000000 2000000100]
+example : exFull.items.length = 2 ∧ exFull.heap = #[1, 2] := by decide
+/-- a later newcomer evicts the client in slot 0 -/
+example : (handleRequest 2 2 exFull 3 exReq 3000000000 3000000100).evicted = some 1 ∧
+    (handleRequest 2 2 exFull 3 exReq 3000000000 3000000100).st.heap = #[2, 3] := by decide
+/-- an earlier newcomer is served statelessly -/
+example : (handleRequest 2 2 exFull 3 exReq 500000000 500000100).evicted = none ∧
+    (handleRequest 2 2 exFull 3 exReq 500000000 500000100).st.heap = exFull.heap ∧
+    (handleRequest 2 2 exFull 3 exReq 500000000 500000100).st.items = exFull.items := by decide
+/-- a known client's later request moves it down the heap (`heap.Fix`) -/
+example : (handleRequest 2 2 exFull 1 exReq 3000000000 3000000100).st.heap = #[2, 1] := by decide
+/-- a lost transmit timestamp removes the only exchange and with it the client (`heap.Remove`) -/
+example : (updateTX exFull 1 1000000000 1000000100).1.heap = #[2] := by decide
+
 end ScionTime.Props.C07
